@@ -1735,7 +1735,54 @@ def gen_C03(rng, tier, changed):
                 for scr in all_nested_scripts(nvec, L):
                     ops.append(op(nm, 0, 0, rows=[scr]))
                 cases.append(Case(f'C03-x{r}x{c}o{order}{nm[5]}', ops, 'w24' if order else 'tr'))
+    # zero-sized elements, up to usize::MAX of them, every alignment: the address counters must neither wrap nor reach null
+    kk = 0
+    huge = [(1, UMAX), (UMAX, 1), (1, UMAX - 1), (UMAX - 7, 1), (2**32, 2**32 - 1), (2**32 - 1, 2**32), (3, (UMAX // 3)), (UMAX // 2, 2), (1, IMAX + 1), (5, 7)]
+    for al in (1, 2, 4, 8):
+        for (r, c) in huge:
+            for order in (0, 1):
+                for axis in (0, 1):
+                    nvec = r if axis == 0 else c
+                    for _ in range(1 if tier == 'quick' else 4):
+                        scr = [-1, 2] + safe_nested_script(rng, rng.randint(6, 30), nvec)
+                        cases.append(KCase(f'C03-z{kk}', 'itermut_zst', [al, r, c, order, axis] + scr,
+                                           meta=dict(no_model=True, want=sim_nested_huge(r, c, axis, scr))))
+                        kk += 1
     return cases
+
+
+def sim_nested_huge(r, c, axis, script):
+    """expected observation of a nested script on an r x c matrix of zero-sized elements (ranges instead of lists)"""
+    nvec, vlen = (r, c) if axis == 0 else (c, r)
+    lo, hi = 0, nvec
+    inners, out = [], []
+    for k in range(0, len(script) - 1, 2):
+        who, what = script[k], script[k + 1]
+        if who < 0:
+            if what == 2:
+                out.append(str(hi - lo))
+            elif lo < hi:
+                if what == 0:
+                    lo += 1
+                else:
+                    hi -= 1
+                out.append(f'Some({len(inners)})')
+                inners.append([0, vlen])
+            else:
+                out.append('None')
+        else:
+            v = inners[who]
+            if what == 2:
+                out.append(str(v[1] - v[0]))
+            elif v[0] < v[1]:
+                if what == 0:
+                    v[0] += 1
+                else:
+                    v[1] -= 1
+                out.append('Some(_)')
+            else:
+                out.append('None')
+    return '[' + ','.join(out) + ']'
 
 
 def oracle_C03(case, hlines):
@@ -1898,3 +1945,124 @@ SUITES['C08'] = dict(gen=gen_C08, files=['src/shape.rs', 'src/lib.rs', 'src/cons
                      rule='all pairs of boundary values (0..3, 2^16, 2^31..2^33, isize::MAX/size_of::<T>() +-1, isize::MAX +-1, usize::MAX) x element sizes 0,1,2,4,8,16,24 '
                           'through check_size, try_to_axis_shape, the five shape-taking entry points, TryFrom, reshape, the eight mapping-style operations and the two products; '
                           'non-trivial = distinct (function, arguments); successes only where the call is O(1) or small')
+
+
+# =============================================================================================
+# C02: one injected panic in caller code per run (the k-th invocation), caught, then the survivors are used and dropped
+def fault(k, mask=-1):
+    return (900, 'fault', [k, mask], [])
+
+
+def gen_C02(rng, tier, changed):
+    cases = []
+    shapes = [(0, 0), (1, 1), (1, 3), (3, 1), (2, 3), (3, 0), (0, 3), (2, 2)]
+    n = 0
+
+    def followups(sh):
+        out = []
+        for s in range(4):
+            out += [op('size', s), op('shape', s), op('get', s, 0, 0, 0), op('iter_elements', s, rows=[[2, 0, 1]])]
+        out += [op('clone', 3, 0), op('transpose', 0), op('resize', 0, 2, 2), op('drop', 1), op('eq', 0, 0)]
+        return out
+
+    def emit(setup_ops, target, kmax, elem='tr', threads=0, mask=-1):
+        nonlocal n
+        ks = list(range(1, kmax + 1))
+        if tier == 'quick' and len(ks) > 5:
+            ks = sorted(set([1, 2, kmax] + rng.sample(ks, 2)))
+        for k in ks:
+            cases.append(Case(f'C02-{n}', list(setup_ops) + [fault(k, mask), target] + followups(None), elem, threads=threads))
+            n += 1
+
+    for (r, c) in shapes:
+        for order in (0, 1):
+            size = r * c
+            sh = Shadow()
+            base = build(sh, 0, r, c, order, how='rowreshape')
+            sh2 = Shadow()
+            sh2.counter = 100
+            other_same = build(sh2, 1, r, c, order ^ (rng.random() < 0.5), how='rowreshape')
+            # constructing / consuming family (the result is assembled after the last caller-code call)
+            emit([], op('with_default', 0, r, c), size + 1)
+            emit([], op('with_value', 0, r, c, 5), size + 1)
+            emit([], op('with_init', 0, r, c, 1), size + 1)
+            vals = list(range(1, size + 1))
+            rows = [vals[i * c:(i + 1) * c] for i in range(r)]
+            if c <= 4:
+                emit([], op('from_arrays', 0, 2, c, rows=rows), size + 1)
+            emit([], op('try_from', 0, 2, rows=rows), size + 1)
+            emit(base, op('clone', 1, 0), size + 1)
+            emit(base, op('map', 1, 0, 1), size + 1)
+            emit(base, op('map_ref', 1, 0, 1), 2 * size + 1)
+            emit(base, op('neg', 1, 0), size + 1)
+            emit(base, op('neg_ref', 1, 0), 2 * size + 1)
+            emit(base, op('sc', 1, 0, 9, 1), 3 * size + 1)
+            emit(base, op('sc_consume', 1, 0, 9, 1), 2 * size + 1)
+            emit(base + other_same, op('ew', 2, 0, 1, 1), 3 * size + 1)
+            emit(base + other_same, op('ew_consume', 2, 0, 1, 1), 2 * size + 1)
+            emit(base + other_same, op('ew_named', rng.randrange(5), 0, 2, 0, 1), 3 * size + 1)
+            emit(base + other_same, op('ew_named', rng.randrange(5), 1, 2, 0, 1), 2 * size + 1)
+            emit(base + other_same, op('op_ew', rng.randrange(2), rng.randrange(4), 2, 0, 1), 3 * size + 1)
+            # in-place family
+            for (tr_, tc) in [(r + 1, c + 1), (max(0, r - 1), c), (3, 3), (0, 0)]:
+                emit(base, op('resize', 0, tr_, tc), max(size, tr_ * tc) + 1)
+            emit(base, op('clear', 0), size + 1)
+            emit(base, op('apply', 0, 1), 2 * size + 1)
+            emit(base, op('sc_assign', 0, 9, 1), 3 * size + 1)
+            emit(base + other_same, op('overwrite', 0, 1), 2 * size + 1)
+            emit(base + other_same, op('ew_assign', 0, 1, 1), 3 * size + 1)
+            emit(base + other_same, op('ew_named', rng.randrange(5), 2, 0, 0, 1), 2 * size + 1)
+            emit(base + other_same, op('op_ew_assign', rng.randrange(2), rng.randrange(2), 0, 1), 2 * size + 1)
+            emit(base, op('drop', 0), size + 1)
+            emit(base, op('into_iter_elements', 0, rows=[[0, 1]]), size + 1)
+            # read-only family
+            emit(base + other_same, op('eq', 0, 1), size + 1)
+            emit(base, op('contains', 0, 99999), size + 1)
+            emit(base, op('display', 0), size + 1)
+            emit(base, op('debug', 0), size + 1)
+            # accessors of a caller-defined index type
+            if size:
+                emit(base, op('get', 0, 4, 0, 0, rows=[[r - 1], [c - 1]]), 3)
+                emit(base, op('set', 0, 4, 0, 0, 7, rows=[[r - 1], [c - 1]]), 3)
+                emit(base, op('set_index_mut', 0, 4, 0, 0, 7, rows=[[0], [0]]), 3)
+                emit(base, op('swap', 0, 4, 0, 0, 4, 0, 0, rows=[[0], [0], [r - 1], [c - 1]]), 5)
+            # parallel helpers: the panic crosses rayon
+            emit(base, op('par_apply', 0, 1), 2 * size + 1, threads=2)
+            emit(base, op('par_map', 1, 0, 1), size + 1, threads=3)
+    # products
+    for (a, k_, b) in [(1, 1, 1), (2, 2, 2), (2, 3, 1), (1, 2, 3), (2, 0, 2), (0, 2, 2)]:
+        for (o1, o2) in ((0, 0), (0, 1), (1, 0), (1, 1)):
+            sh = Shadow()
+            base = build(sh, 0, a, k_, o1, how='rowreshape') + build(sh, 1, k_, b, o2, how='rowreshape')
+            calls = a * b * (3 * k_ + max(0, k_ - 1)) + a * b + 2
+            emit(base, op('multiply', 2, 0, 1), min(calls, 40))
+            emit(base, op('op_mul', 3, 2, 0, 1), min(calls + a * k_ + k_ * b, 40))
+            emit(base, op('mul_like', 2, 0, 1, 1), a * b + 1)
+    return cases
+
+
+def oracle_C02(case, hlines):
+    """direct oracle: whatever was reachable before the injected panic and is still reachable after it must be coherent
+    (checked in the harness on every line), nothing is dropped twice, and a faulted in-place operation on a matrix that
+    fails before touching it leaves it as it was where the crate documents that (resize)"""
+    out = []
+    ops = [o for o in case.ops if o[1] != 'fault']
+    prev = None
+    for i, (o, line) in enumerate(zip(ops, hlines)):
+        side = C.side_of(line)
+        if ' fired=1' in side and prev is not None:
+            if 'Panic(caller)' not in obs_of(line) and not obs_of(line).startswith('[Panic(caller)'):
+                out.append(dict(kind='oracle', op_index=i, op=o[1], observed=obs_of(line)[:200], detail='an injected panic in caller code did not propagate as that panic'))
+            if o[1] == 'resize':
+                a, b = parse_slot(prev, o[2][0]), parse_slot(line, o[2][0])
+                if a and b and (a[1], a[2]) != (b[1], b[2]) and not (b[1] * b[2] == len(b[3])):
+                    out.append(dict(kind='oracle', op_index=i, op='resize', observed=line.split(' ;; ')[1][:200], detail='shape and element count disagree after a panicking Default'))
+        prev = line
+    return out
+
+
+SUITES['C02'] = dict(gen=gen_C02, oracle=oracle_C02, files=['src'],
+                     rule='every operation family that calls caller code x shapes {0x0,1x1,1x3,3x1,2x3,3x0,0x3,2x2} x both orders x every k up to the number of '
+                          'caller-code invocations (quick: a sample of k incl. first and last): the k-th invocation of Default/Clone/Drop/PartialEq/Display/Debug/operator/closure/accessor '
+                          'panics, the unwind is caught, every surviving matrix is probed (coherence, ledger, double drops) and then used and dropped; non-trivial = the fault fired',
+                     assumptions=['std unwinding behaviour (SetLenOnDrop, in-place collect, slice drop continuing after a panicking drop) and rayon panic propagation are observed, not proved'])
